@@ -199,6 +199,11 @@ public:
     _token = Token{};
     _producedTokens = 0;
     _elementStack.clear();
+    // A leading UTF-8 byte order mark is an encoding signature, not content.
+    if (_input.size() >= 3 && _input[0] == '\xEF' && _input[1] == '\xBB' && _input[2] == '\xBF')
+    {
+      _cur = 3;
+    }
   }
 
   /// \brief Returns the current token after a successful next().
